@@ -65,6 +65,18 @@ fn to_matrix(q: &UnitQuaternion<f64>) -> Matrix3<f64> {
     *m.matrix()
 }
 
+/// Extracts the `(roll, pitch, yaw)` angles for which `UnitQuaternion::from_euler_angles(roll, pitch,
+/// yaw)`, the rotation `Rz(yaw) * Ry(pitch) * Rx(roll)`, reproduces `q`. Unlike nalgebra's
+/// `euler_angles`, which only recognizes gimbal lock when a matrix entry is exactly +/- 1 and otherwise
+/// divides two entries that consist of rounding noise, this stays accurate at and near a pitch of
+/// +/- 90 degrees.
+pub(super) fn to_roll_pitch_yaw(q: &UnitQuaternion<f64>) -> (f64, f64, f64) {
+    // Rz(yaw) * Ry(pitch) * Rx(roll) is the inverse of Rx(-roll) * Ry(-pitch) * Rz(-yaw), and the latter
+    // is the composition order which `to_wpr` decomposes
+    let (w, p, r) = to_wpr(&to_matrix(&q.inverse()));
+    (-w, -p, -r)
+}
+
 fn to_wpr(m: &Matrix3<f64>) -> (f64, f64, f64) {
     // https://www.geometrictools.com/Documentation/EulerAngles.pdf
     let sin_y = m[(0, 2)];
